@@ -68,6 +68,9 @@ def run_core(cases, shards=8, fuel=None, timeout_ms=10000, spec=False, spec_fuel
         dis.append({"layer": "DRIVER", "case": None, "detail": mres["__driver_error__"]})
     for i, (c, g) in enumerate(zip(cases, gres)):
         mk = "m%d" % i
+        if g.get("api_diff"):
+            # the public entry points (libvore.Compile, (*Vore).Run) against the pipeline the model is compared with, in the same process
+            dis.append({"layer": "CORR-API", "case": i, "text": g.get("api_text"), "go": str(g["api_diff"])[:500], "model": "(same as the pipeline)"})
         if g.get("hang") or g.get("oom") or g.get("fatal") or g.get("missing"):
             stats["go_hang"] += 1
             # the implementation did not come back within the budget: a disagreement only if the
